@@ -7,7 +7,7 @@ from typing import List, Optional, Set
 from ..cfg import ENTRY, EXIT, RAISE, reaching_defs
 from ..common import calls_named, dotted, kw, loc, norm
 from ..model import AnalysisError, own_nodes
-from .util import anchor_func, assigned_name, build_cfg, facts, is_zero_expr, switch_assumptions
+from .util import specialise_defaults, anchor_func, assigned_name, build_cfg, facts, is_zero_expr, switch_assumptions
 from . import c13, opcontract
 
 TENSOR = "mygrad.tensor_base.Tensor"
@@ -72,7 +72,7 @@ def r05_1(run):
     run.ob("R05.1", loc(fi, cfg.stmt[copies[0]] if copies else fi.node), fi.short, "order: duplicate graph -> copy base -> run kernel", ok,
            "dominance chain DuplicatingGraph(...) > graph.base.tensor.copy() > kernel" if ok else "copy/kernel ordering broken")
     # the private copy must preserve the base's memory layout (np.copy: order='K'); ndarray.copy() defaults to order='C'
-    cp = anchor_func(run, f"{TENSOR}.copy")
+    cp = specialise_defaults(anchor_func(run, f"{TENSOR}.copy"), keep=("constant",))
     builds = [c for c in own_nodes(cp.node) if isinstance(c, ast.Call) and (dotted(c.func) or "") in ("Tensor", "type(self)") and c.args]
     okl = False
     for b in builds:
